@@ -454,6 +454,7 @@ func (c *ctx17) nullableRows() []row17 {
 
 // resultUpdates: how the slice-typed named results of fn (fromV3RequestBodies: formParameters, bodyOrRefParameters) are
 // updated, in source order — one row per assignment `<result> = <rhs>`:
+//   (<result>, "init:<callee>")     for `if <result> == nil { <result> = <callee>(…) }`: assigned once, by the first pass;
 //   (<result>, "replace:<callee>")  for `<result> = <callee>(…)` (a call other than append): the earlier value is dropped;
 //   (<result>, "append")            for `<result> = append(<result>, x)`;
 //   (<result>, "append...")         for `<result> = append(<result>, xs...)`;
@@ -468,6 +469,22 @@ func (c *ctx17) resultUpdates(fnName string, results []string) []row17 {
 	for _, r := range results {
 		isRes[r] = true
 	}
+	// assignments that are the whole body of `if <result> == nil { … }`: executed at most once (while the result is nil)
+	guarded := map[*ast.AssignStmt]string{}
+	ast.Inspect(fn.Body, func(n ast.Node) bool {
+		is, ok := n.(*ast.IfStmt)
+		if !ok || is.Init != nil || is.Else != nil || len(is.Body.List) != 1 {
+			return true
+		}
+		be, ok := is.Cond.(*ast.BinaryExpr)
+		if !ok || be.Op != token.EQL || exprText(be.Y) != "nil" || !isRes[exprText(be.X)] {
+			return true
+		}
+		if as, ok := is.Body.List[0].(*ast.AssignStmt); ok {
+			guarded[as] = exprText(be.X)
+		}
+		return true
+	})
 	var rows []row17
 	ast.Inspect(fn.Body, func(n ast.Node) bool {
 		as, ok := n.(*ast.AssignStmt)
@@ -492,7 +509,11 @@ func (c *ctx17) resultUpdates(fnName string, results []string) []row17 {
 			}
 			callee := exprText(call.Fun)
 			if callee != "append" {
-				rows = append(rows, row17{id.Name, "replace:" + callee})
+				if guarded[as] == id.Name && len(as.Lhs) == 1 {
+					rows = append(rows, row17{id.Name, "init:" + callee})
+				} else {
+					rows = append(rows, row17{id.Name, "replace:" + callee})
+				}
 				continue
 			}
 			if len(call.Args) != 2 || exprText(call.Args[0]) != id.Name {
